@@ -103,10 +103,14 @@ class C13Clauses(Clauses):
                     return None
                 v *= Fraction(sizes[t]) ** e
             return v
-        sa, sb = size(a), size(b)
-        if sa is None or sb is None or I.model.dim_of(a) != I.model.dim_of(b):
+        if I.model.dim_of(a) != I.model.dim_of(b):
             return False
-        return abs(float(sa / sb) - 1.0) <= 1e-9
+        # only the factors in which the two differ need a size (a shared scale unit such as
+        # celsius has none): size(a)/size(b) = size(a/b)
+        q = size(M.u_div(a, b))
+        if q is None:
+            return False
+        return abs(float(q) - 1.0) <= 1e-9
 
     def after_op(self, op, prepared, kind, value, mval, exc, info, rec):
         I = self.I
